@@ -41,10 +41,26 @@ class ListProxy(list, ContainerValueMixin):
 
         if isinstance(iterable, ListProxy) and iterable.item_field is list_field.field:
             super().__init__(iterable)
+            self._adopt(iterable)
         else:
             super().__init__(
                 self._validate(item) for index, item in enumerate(iterable)
             )
+
+    def _adopt(self, source: "ListProxy") -> None:
+        """
+        Configurations taken over from the list of another configuration now belong to this one:
+        the same bookkeeping as :meth:`_validate` does for a single configuration.
+
+        :param source: the typed list the items were copied from
+        """
+        if source.cfg is self.cfg:
+            return
+        for item in source:
+            if isinstance(item, Config):
+                item._parent = self.cfg
+                item._key = self.list_field._key
+                item._container = self
 
     @property
     def item_field(self) -> Union[BaseField, Type[Config]]:
@@ -59,6 +75,7 @@ class ListProxy(list, ContainerValueMixin):
     def extend(self, iterable: Iterable) -> None:
         if isinstance(iterable, ListProxy) and iterable.item_field is self.item_field:
             super().extend(iterable)
+            self._adopt(iterable)
         else:
             super().extend(self._validate(item) for item in iterable)
 
